@@ -261,6 +261,151 @@ theorem segment_roundtrip (s : List Seg) (hne : s ≠ []) (h64 : ∀ x ∈ s, x.
         have := ih (by simp)
         omega
 
+/-! ### TSDFS / TSBFS / TSStatelessBFS -/
+
+/-- Hypothesis under which the triple-store traversals terminate: a positive depth bound, or a rank function on
+nodes that strictly decreases along every filter-admitted step (a certificate that the filtered graph is
+acyclic). The excluded point — an admitted cycle with `maxDepth ≤ 0` — is the documented non-termination of
+the real loops (they keep no visited set). -/
+def Terminates (g : G) (d : Dir) (admits : Edge → Bool) (maxDepth : Int) : Prop :=
+  maxDepth > 0 ∨ ∃ rk : Nat → Nat, ∀ n e, e ∈ g.incident n d → admits e = true → rk (e.other n) < rk n
+
+/-- the `Triplestore`s the traversals run on, each with the graph whose walks it must enumerate: the store
+itself — with ANY tombstones: `EachAdjacentEdge` ignores `DeleteEdge`, so it is the un-tombstoned edge list (the
+known finding, stated precisely) — and every projection of it. -/
+def tsContainers (ops : List Op) (dels dn de : List Nat) : List ((Nat → Dir → List Edge) × G) :=
+  [ ((tsOf ops dels).adjacentEdges, G.ofOps ops),
+    (Proj.adjacentEdges ⟨tsOf ops dels, dn, de⟩, (G.ofOps ops).project dn de) ]
+
+private theorem tsContainers_incident (ops : List Op) (dels dn de : List Nat) :
+    ∀ c ∈ tsContainers ops dels dn de, ∀ n d, c.1 n d = c.2.incident n d := by
+  have r := TS.deleteAll_rel (TS.rel_build ops) dels
+  intro c hc
+  simp only [tsContainers, List.mem_cons, List.not_mem_nil, or_false] at hc
+  rcases hc with rfl | rfl
+  · exact fun n d => TS.adjacentEdges_eq r n d
+  · exact fun n d => Proj.adjacentEdges_eq r dn de n d
+
+private theorem ts_traverse_leaves_eq (bfs : Bool) (ops : List Op) (dels dn de : List Nat) (d : Dir) (filt : Edge → Bool)
+    (maxDepth : Int) (root : Nat) :
+    ∀ c ∈ tsContainers ops dels dn de, Terminates c.2 d filt maxDepth →
+      ∃ F fuel0,
+        (∀ F', F ≤ F' → maxWalks c.2 d filt maxDepth Edge.other F' [⟨root, 0⟩] = maxWalks c.2 d filt maxDepth Edge.other F [⟨root, 0⟩]) ∧
+        ∀ fuel, fuel0 ≤ fuel → ∃ out inc,
+          tsTraverse bfs true (fun n => c.1 n d) d filt maxDepth fuel root = some (out, inc) ∧
+          out.Perm (maxWalks c.2 d filt maxDepth Edge.other F [⟨root, 0⟩]) ∧
+          inc = (out.filter (segExceeded maxDepth)).length := by
+  intro c hc hterm
+  have hadj : (fun n => c.1 n d) = (fun n => c.2.incident n d) := by
+    funext n; exact tsContainers_incident ops dels dn de c hc n d
+  have hb : ∃ F, Bounded (segChildren (fun n => c.2.incident n d) filt maxDepth Edge.other) F [⟨root, 0⟩] := by
+    rcases hterm with hmd | ⟨rk, hrk⟩
+    · exact ⟨maxDepth.toNat + 1, seg_bounded_depth _ filt maxDepth _ hmd maxDepth.toNat [⟨root, 0⟩] (by simp; omega)⟩
+    · exact ⟨rk root + 1, seg_bounded_rank _ filt maxDepth _ rk hrk (rk root) [⟨root, 0⟩] (Nat.le_refl _)⟩
+  obtain ⟨F, hF⟩ := hb
+  refine ⟨F, treeSize (segChildren (fun n => c.2.incident n d) filt maxDepth Edge.other) F [⟨root, 0⟩], ?_, ?_⟩
+  · intro F' hle
+    exact treeLeaves_stable_le _ _ hF hle
+  · intro fuel hfuel
+    unfold tsTraverse
+    rw [hadj, pickAt_true]
+    exact travLoop_root bfs _ segIsPath (segExceeded maxDepth) F [⟨root, 0⟩] hF fuel hfuel
+
+/-- `TSBFS` over the store and over every projection: under `Terminates` it completes for every sufficiently
+large fuel (explicit bound: the number of nodes of the walk tree), and the handler receives — as a multiset,
+i.e. each exactly as often as it occurs, hence once per walk — exactly the maximal filter-admitted walks within
+the depth bound enumerated naively from the edge list (`maxWalks`, stable in its own fuel from `F` on);
+the returned count is the number of reported walks that exceed the depth. -/
+theorem tsbfs_leaves_eq (ops : List Op) (dels dn de : List Nat) (d : Dir) (filt : Edge → Bool) (maxDepth : Int) (root : Nat) :
+    ∀ c ∈ tsContainers ops dels dn de, Terminates c.2 d filt maxDepth →
+      ∃ F fuel0,
+        (∀ F', F ≤ F' → maxWalks c.2 d filt maxDepth Edge.other F' [⟨root, 0⟩] = maxWalks c.2 d filt maxDepth Edge.other F [⟨root, 0⟩]) ∧
+        ∀ fuel, fuel0 ≤ fuel → ∃ out inc,
+          tsTraverse true true (fun n => c.1 n d) d filt maxDepth fuel root = some (out, inc) ∧
+          out.Perm (maxWalks c.2 d filt maxDepth Edge.other F [⟨root, 0⟩]) ∧
+          inc = (out.filter (segExceeded maxDepth)).length :=
+  ts_traverse_leaves_eq true ops dels dn de d filt maxDepth root
+
+/-- `TSDFS`: the same statement for the `PopBack` loop. -/
+theorem tsdfs_leaves_eq (ops : List Op) (dels dn de : List Nat) (d : Dir) (filt : Edge → Bool) (maxDepth : Int) (root : Nat) :
+    ∀ c ∈ tsContainers ops dels dn de, Terminates c.2 d filt maxDepth →
+      ∃ F fuel0,
+        (∀ F', F ≤ F' → maxWalks c.2 d filt maxDepth Edge.other F' [⟨root, 0⟩] = maxWalks c.2 d filt maxDepth Edge.other F [⟨root, 0⟩]) ∧
+        ∀ fuel, fuel0 ≤ fuel → ∃ out inc,
+          tsTraverse false true (fun n => c.1 n d) d filt maxDepth fuel root = some (out, inc) ∧
+          out.Perm (maxWalks c.2 d filt maxDepth Edge.other F [⟨root, 0⟩]) ∧
+          inc = (out.filter (segExceeded maxDepth)).length :=
+  ts_traverse_leaves_eq false ops dels dn de d filt maxDepth root
+
+/-- `TSStatelessBFS`: under `Terminates` (for the weighted filter) it completes, and the terminal handler receives
+exactly (as a multiset) the terminals `(end node, distance, weight product)` of the maximal admitted walks
+enumerated naively from the edge list (`maxTerms`); every reported distance is ≥ 1 and is the length of an
+admitted walk from the root to the reported node. -/
+theorem stateless_bfs_dist_eq (ops : List Op) (dels dn de : List Nat) (d : Dir) (wfilt : Edge → Option Nat) (maxDepth : Int) (root : Nat) :
+    ∀ c ∈ tsContainers ops dels dn de, Terminates c.2 d (fun e => (wfilt e).isSome) maxDepth →
+      ∃ F fuel0,
+        (∀ F', F ≤ F' → maxTerms c.2 d wfilt maxDepth F' ⟨root, 0, 0⟩ = maxTerms c.2 d wfilt maxDepth F ⟨root, 0, 0⟩) ∧
+        ∀ fuel, fuel0 ≤ fuel → ∃ out inc,
+          statelessBFS true (fun n => c.1 n d) d wfilt maxDepth fuel root = some (out, inc) ∧
+          out.Perm (maxTerms c.2 d wfilt maxDepth F ⟨root, 0, 0⟩) ∧
+          inc = (out.filter (ptExceeded maxDepth)).length ∧
+          ∀ t ∈ out, 1 ≤ t.dist ∧ t.node ∈ walkEnds (admittedEnds (fun n => c.2.incident n d) wfilt) root t.dist := by
+  intro c hc hterm
+  have hadj : (fun n => c.1 n d) = (fun n => c.2.incident n d) := by
+    funext n; exact tsContainers_incident ops dels dn de c hc n d
+  have hb : ∃ F, Bounded (ptChildren (fun n => c.2.incident n d) wfilt maxDepth Edge.other) F ⟨root, 0, 0⟩ := by
+    rcases hterm with hmd | ⟨rk, hrk⟩
+    · exact ⟨maxDepth.toNat + 2, pt_bounded_depth _ wfilt maxDepth _ hmd (maxDepth.toNat + 1) ⟨root, 0, 0⟩ (by simp)⟩
+    · exact ⟨rk root + 1, pt_bounded_rank _ wfilt maxDepth _ rk hrk (rk root) ⟨root, 0, 0⟩ (Nat.le_refl _)⟩
+  obtain ⟨F, hF⟩ := hb
+  refine ⟨F, treeSize (ptChildren (fun n => c.2.incident n d) wfilt maxDepth Edge.other) F ⟨root, 0, 0⟩, ?_, ?_⟩
+  · intro F' hle
+    exact treeLeaves_stable_le _ _ hF hle
+  · intro fuel hfuel
+    unfold statelessBFS
+    rw [hadj, pickAt_true]
+    obtain ⟨out, inc, h1, h2, h3⟩ := travLoop_root true _ ptIsPath (ptExceeded maxDepth) F ⟨root, 0, 0⟩ hF fuel hfuel
+    refine ⟨out, inc, h1, h2, h3, ?_⟩
+    intro t ht
+    have hmem := h2.mem_iff.mp ht
+    refine ⟨?_, ptLeaves_walk _ wfilt maxDepth root F ⟨root, 0, 0⟩ t (by simp [walkEnds_zero]) hmem⟩
+    have := treeLeaves_isPath _ ptIsPath F _ t hmem
+    simpa [ptIsPath] using this
+
+/-! ### NumEdges -/
+
+/-- `NumEdges` against the edge list, for every history, any tombstones and ANY deleted-id sets (ids that are not
+nodes or edges of the store included): the CSR digraph counts the distinct (start, end) pairs, the triple store
+every triple, a projection exactly the triples of the projected graph; without parallel edges CSR and store agree.
+Two known findings, stated precisely: the store's count ignores `DeleteEdge` (it is `|edges|` whatever `dels`), and
+`adjacencyMapDigraph.NumEdges` returns the NODE count. -/
+theorem numEdges_eq (ops : List Op) (dels dn de : List Nat) :
+    let g := G.ofOps ops
+    (Csr.ofOps ops).numEdges = g.pairs.length ∧
+    (tsOf ops dels).numEdges = g.edges.length ∧
+    Proj.numEdges ⟨tsOf ops dels, dn, de⟩ = (g.project dn de).edges.length ∧
+    ((g.edges.map (fun e => (e.start, e.stop))).Nodup → (Csr.ofOps ops).numEdges = (tsOf ops dels).numEdges) ∧
+    (AdjMap.build ops).numEdges = (AdjMap.build ops).numNodes := by
+  intro g
+  have rc := CsrB.rel_ofOps ops
+  have rt := TS.deleteAll_rel (TS.rel_build ops) dels
+  have h1 : (Csr.ofOps ops).numEdges = g.pairs.length := Csr.numEdges_spec rc
+  have h2 : (tsOf ops dels).numEdges = g.edges.length := TS.numEdges_spec rt
+  exact ⟨h1, h2, Proj.numEdges_spec rt dn de, fun hn => by rw [h1, h2, pairs_length_of_nodup hn], rfl⟩
+
+/-- KNOWN FINDING (C14:adjacencyMapDigraph.NumEdges:returns-node-count): edges 1→2, 1→3 — two edges, `NumEdges() = 3`. -/
+theorem adjmap_numEdges_refuted : ¬ ∀ ops, (AdjMap.build ops).numEdges = (G.ofOps ops).pairs.length := by
+  intro h
+  have := h [.edge 10 1 2, .edge 11 1 3]
+  revert this; decide
+
+/-- KNOWN FINDING (C14:triplestore.NumEdges:ignores-DeleteEdge): edge 10 deleted, `NumEdges() = 1`. -/
+theorem ts_numEdges_tombstone_refuted :
+    ¬ ∀ ops dels, (tsOf ops dels).numEdges = ((G.ofOps ops).dropEdges dels).edges.length := by
+  intro h
+  have := h [.edge 10 1 2] [10]
+  revert this; decide
+
 /-- C14 at full strength for a given version of the code: every container presents the ground truth in all
 three directions (triple store with any tombstones, every projection), node counts agree, Reach and BFSTree
 from every container are exact for all three directions, Normalize is an isomorphism, segments round-trip. -/
@@ -357,6 +502,25 @@ example : marshal [⟨258, 0⟩] = [2, 1, 0, 0, 0, 0, 0, 0] := by decide
 example : unmarshal (marshal [⟨1, 5⟩]) = some [⟨1, 0⟩] := by decide
 -- F3: `SerializedSegment.ToSegment` as it is panics (`none`) on every input with an edge
 example : toSegment [1, 2] [7] = none ∧ toSegment [1] [] = some [⟨1, 0⟩] := by decide
+-- `Terminates`: both disjuncts are satisfiable — a depth bound, and a rank for the acyclic chain 7→3→5→2^40 …
+example : Terminates (G.ofOps demoOps) .out (fun _ => true) 2 := Or.inl (by decide)
+example : Terminates (G.ofOps [.edge 1 7 3, .edge 2 3 5]) .out (fun _ => true) 0 :=
+  Or.inr ⟨fun n => if n = 7 then 2 else if n = 3 then 1 else 0, by
+    intro n e he _
+    simp [G.ofOps, G.step, G.incident] at he
+    rcases he with ⟨rfl | rfl, h⟩ <;> subst h <;> simp [Edge.other]⟩
+-- … and the traversals are not degenerate: TSBFS / TSDFS order, a depth-exceeded walk, stateless weights
+example : tsTraverse true true (fun n => (tsOf demoOps []).adjacentEdges n .out) .out (fun _ => true) 2 20 7 =
+    some ([[⟨7, 102⟩, ⟨3, 100⟩, ⟨7, 0⟩], [⟨5, 104⟩, ⟨3, 100⟩, ⟨7, 0⟩], [⟨7, 102⟩, ⟨3, 101⟩, ⟨7, 0⟩], [⟨5, 104⟩, ⟨3, 101⟩, ⟨7, 0⟩]], 4) := by decide
+example : (tsTraverse false true (fun n => (tsOf demoOps []).adjacentEdges n .out) .out (fun _ => true) 2 20 7).map (·.1.head?) = some (some [⟨5, 104⟩, ⟨3, 101⟩, ⟨7, 0⟩]) := by decide
+example : maxWalks (G.ofOps demoOps) .out (fun _ => true) 2 Edge.other 3 [⟨7, 0⟩] =
+    [[⟨7, 102⟩, ⟨3, 100⟩, ⟨7, 0⟩], [⟨5, 104⟩, ⟨3, 100⟩, ⟨7, 0⟩], [⟨7, 102⟩, ⟨3, 101⟩, ⟨7, 0⟩], [⟨5, 104⟩, ⟨3, 101⟩, ⟨7, 0⟩]] := by decide
+example : statelessBFS true (fun n => (tsOf demoOps []).adjacentEdges n .out) .out (fun e => some (1 + e.id % 3)) 1 20 3 =
+    some ([⟨3, 2, 2⟩, ⟨3, 2, 3⟩, ⟨5, 2, 6⟩, ⟨1099511627776, 2, 3⟩], 4) := by decide
+-- a filtered cycle with maxDepth ≤ 0 (the excluded point) exhausts any fuel in the model
+example : tsTraverse true true (fun n => (tsOf demoOps []).adjacentEdges n .out) .out (fun _ => true) 0 50 7 = none := by decide
+example : (Csr.ofOps demoOps).numEdges = 5 ∧ (tsOf demoOps [104]).numEdges = 6 ∧
+          Proj.numEdges ⟨tsOf demoOps [], [5, 77], [100, 999]⟩ = 2 ∧ (AdjMap.build demoOps).numEdges = 5 := by decide
 -- `IsDist` is not vacuous: 5 is at distance 2 from 7, and not at distance 1
 example : (5 ∈ walkEnds (fun v => (G.ofOps demoOps).adj v .out) 7 2) ∧ ¬ (5 ∈ walkEnds (fun v => (G.ofOps demoOps).adj v .out) 7 1) := by decide
 
